@@ -294,7 +294,12 @@ def g3_front_ends(prog: Program, chk: Check) -> None:
                 continue
             n += 1
             nid = du.node_of(c)
+            call_nid = nid
             t = c.args[0]
+            if isinstance(t, ast.Name):
+                dt_ = du.unique_value(nid, t.id)
+                if dt_ is not None and dt_.value is not None and not dt_.sel:
+                    t, nid = dt_.value, dt_.node
             ok = False
             why = "time argument is not self._time(<step>)"
             if isinstance(t, ast.Call) and method_call(t) == ("self", "_time") and \
@@ -307,7 +312,7 @@ def g3_front_ends(prog: Program, chk: Check) -> None:
                 why = "step and state unpacked from the same back-end call"
                 linked = False
                 for nm in state_names:
-                    for d in du.reaching(nid, nm):
+                    for d in du.reaching(call_nid, nm):
                         if d.value is not None and id(d.value) in srcs:
                             linked = True
                         elif d.value is not None:
